@@ -9,6 +9,7 @@ C10 - well-formed pages; source text never becomes markup.  Decides the raw-mark
   R10.7 a module's own __docformat__ wins over its package's (which parser sees the text)
   R10.8 a catch-all handler hands helpers only arguments whose every Union member the helper accepts
   R10.9 docutils' own text-to-markup paths (math2html, URL schemes) are closed in the translator
+  R10.10 docutils' escaping primitives (encode, attval, starttag) are not replaced by a translator subclass, only extended through super()
 Trusted base: twisted.web.template flattening escapes text/attribute values; docutils' encode/attval/starttag escape.
 """
 from __future__ import annotations
@@ -227,6 +228,22 @@ def run(repo: Repo, chk: Check, thorough: bool = False) -> None:
                    'all(part.isidentifier() ...)' if ok else
                    f'the validator accepts a text when {"some" if quant == "any" else "not every"} dotted part is an identifier: '
                    'the other parts are interpolated into reST unchecked (markup injection through a decorator string)', repo.loc(vf.mod, c))
+        # ... of the WHOLE text: the parts come from a complete decomposition of the parameter (`param.split(sep)`), the parameter is not cut first
+        vparams = [a.arg for a in vf.params()]
+        cuts = [n for n in vf.walk() if (isinstance(n, ast.Assign) and any(isinstance(t, ast.Name) and t.id in vparams for t in n.targets)) or
+                (isinstance(n, ast.Call) and call_name(n) in ('partition', 'rpartition', 'strip', 'lstrip', 'rstrip', 'removeprefix', 'removesuffix', 'replace') and
+                 isinstance(n.func, ast.Attribute) and isinstance(n.func.value, ast.Name) and n.func.value.id in vparams) or
+                (isinstance(n, ast.Subscript) and isinstance(n.value, ast.Name) and n.value.id in vparams)]
+        whole = not cuts and any(isinstance(g_, (ast.GeneratorExp, ast.ListComp)) and isinstance(g_.generators[0].iter, ast.Call) and
+                                 call_name(g_.generators[0].iter) == 'split' and isinstance(g_.generators[0].iter.func, ast.Attribute) and
+                                 isinstance(g_.generators[0].iter.func.value, ast.Name) and g_.generators[0].iter.func.value.id in vparams and
+                                 len(g_.generators[0].iter.args) == 1 for g_ in vf.walk()) if idc else False
+        if idc:
+            chk.ob('R10.5', f'deprecatedToUsefulText.{vn} :: the whole text is decomposed and tested', whole,
+                   'all parts of <param>.split(sep), the parameter is used as it comes' if whole else
+                   f'`{norm(cuts[0])[:60]}` cuts the text before it is tested' if cuts else 'the tested parts are not a complete split of the parameter' +
+                   ': what follows the tested prefix is interpolated into the generated reST unchecked - `replacement="better(now)\\n\\n.. raw:: html\\n\\n   <script>"` '
+                   'puts a script element on the page', vf.loc)
     vt = repo.func('pydoctor.extensions.deprecate.versionToUsefulObject')
     raises = [n for n in vt.walk() if isinstance(n, ast.Raise) and 'ValueError' in norm(n)]
     ints = [c for c in calls_in(vt) if call_name(c) == 'get_int_value']
@@ -443,6 +460,7 @@ def run(repo: Repo, chk: Check, thorough: bool = False) -> None:
                            'failure raises itself (AttributeError), the page is not written', repo.loc(f.mod, c))
     chk.stats['handler_arguments_checked'] = n_h
 
+    check_r10_10(repo, chk)
     # ------------------------------------------------------------------ R10.9
     # two places where docutils itself turns docstring text into markup or script, and pydoctor's translator is the only place to stop it:
     #  (a) math: the html4css1 default `math_output = HTML` runs math2html, which copies the arguments of \text{} / \mbox{} / \href{} unescaped;
@@ -596,11 +614,40 @@ def _interp_guard(f: Func, cfg: CFG, call: ast.Call, var: str, validators: Set[s
              any(isinstance(c, ast.Call) and call_name(c) == 'replace' and c.args and const_str(c.args[0]) == '`' for c in ast.walk(n.value))]
     neutralisers = [w for w in wraps if any(cfg.dominates(s_, w, no_exc=True) for s_ in strips) and
                     (any(cfg.dominates(t_, w, no_exc=True) or t_ is w for t_ in ticks))]
+    # second idiom: character-wise escaping - `var = ''.join(c if <c is alphanumeric or the blank> else '\\' + c for c in <var, white space normalised>)`:
+    # reST takes a backslash-escaped character literally, whatever it is; every run of white space (all line boundaries included) must have become ' '
+    def _charwise(n: ast.AST) -> bool:
+        if not (isinstance(n, ast.Assign) and any(isinstance(t, ast.Name) and t.id == var for t in n.targets) and isinstance(n.value, ast.Call) and
+                call_name(n.value) == 'join' and n.value.args and isinstance(n.value.args[0], (ast.GeneratorExp, ast.ListComp))):
+            return False
+        g_ = n.value.args[0]
+        if len(g_.generators) != 1 or not isinstance(g_.generators[0].target, ast.Name) or not isinstance(g_.elt, ast.IfExp):
+            return False
+        cv = g_.generators[0].target.id
+        e = g_.elt
+        # unescaped only when alphanumeric or exactly ' '
+        def accepted(t: ast.AST) -> bool:
+            if isinstance(t, ast.BoolOp) and isinstance(t.op, ast.Or):
+                return all(accepted(x) for x in t.values)
+            if isinstance(t, ast.Call) and call_name(t) in ('isalnum', 'isalpha', 'isdigit', 'isdecimal') and isinstance(t.func, ast.Attribute) and norm(t.func.value) == cv:
+                return True
+            return isinstance(t, ast.Compare) and len(t.ops) == 1 and isinstance(t.ops[0], ast.Eq) and norm(t.left) == cv and const_str(t.comparators[0]) == ' '
+        keeps = isinstance(e.body, ast.Name) and e.body.id == cv and accepted(e.test)
+        escapes = any(isinstance(x, ast.Constant) and isinstance(x.value, str) and x.value.startswith('\\') for x in ast.walk(e.orelse)) and \
+            any(isinstance(x, ast.Name) and x.id == cv for x in ast.walk(e.orelse))
+        it = g_.generators[0].iter
+        normalised = isinstance(it, ast.Call) and call_name(it) == 'join' and isinstance(it.func, ast.Attribute) and const_str(it.func.value) == ' ' and it.args and \
+            isinstance(it.args[0], ast.Call) and call_name(it.args[0]) == 'split' and not it.args[0].args and norm(it.args[0].func.value) == var  # type: ignore[attr-defined]
+        blank_ok = normalised or not any(isinstance(x, ast.Compare) for x in ast.walk(e.test))
+        return keeps and escapes and blank_ok and (normalised or norm(it) == var)
+    charwise = [n for n in f.walk() if _charwise(n)]
+    neutralisers = neutralisers + charwise
     safe_edges = [(nid, id(t), k) for nid, edges in cfg.succ.items() for (t, l, k) in edges if l is not None and safe(l[0], l[1])]
     if safe_edges or neutralisers:
         r = cfg.reachable(cfg.ENTRY, avoid_nodes=neutralisers, avoid_edges=safe_edges, no_exc=True)
         if id(st) not in r:
             return True, ('validated on every path to the interpolation' if not neutralisers else
+                          'identifier, or neutralised (every non-alphanumeric character backslash-escaped, white space normalised), on every path' if charwise else
                           'identifier, or neutralised (newlines removed, wrapped in back-ticks as literal text), on every path')
     # (c) derived from the type-checked Version object
     vals = [n.value for n in f.walk() if isinstance(n, ast.Assign) and any(isinstance(t, ast.Name) and t.id == var for t in n.targets)]
@@ -621,3 +668,51 @@ def _interp_guard(f: Func, cfg: CFG, call: ast.Call, var: str, validators: Set[s
         return False, (f'`{var}` is only wrapped in back-ticks when it is not an identifier: a text containing "``" closes the inline literal and the rest is parsed as '
                        'reST (links with javascript: targets, emphasis, roles) - a decorator string argument becomes markup')
     return False, f'`{var}` is interpolated into reST without validation: source text can inject markup (e.g. a raw directive)'
+
+
+ESCAPING_PRIMITIVES = ('encode', 'attval', 'starttag', 'emptytag')
+
+
+def _replaced_primitives(repo: Repo) -> List[Tuple[Func, bool]]:
+    """(method, delegates) for every method of a docutils-translator subclass that overrides an escaping primitive."""
+    out: List[Tuple[Func, bool]] = []
+    for c in repo.classes.values():
+        if not any('HTMLTranslator' in norm(b) or 'Translator' in norm(b) and 'html' in norm(b).lower() for b in c.node.bases):
+            continue
+        for nm in ESCAPING_PRIMITIVES:
+            m = c.methods.get(nm)
+            if m is None:
+                continue
+            rets = [r for r in m.walk() if isinstance(r, ast.Return)]
+            deleg = bool(rets) and all(r.value is not None and any(isinstance(x, ast.Call) and call_name(x) == nm and isinstance(x.func, ast.Attribute) and
+                                                                  isinstance(x.func.value, ast.Call) and call_name(x.func.value) == 'super'
+                                                                  for x in ast.walk(r.value)) or
+                                       (isinstance(r.value, ast.Name) and any(isinstance(n, ast.Assign) and any(isinstance(t, ast.Name) and t.id == r.value.id for t in n.targets) and
+                                                                               any(isinstance(x, ast.Call) and call_name(x) == nm and isinstance(x.func, ast.Attribute) and
+                                                                                   isinstance(x.func.value, ast.Call) and call_name(x.func.value) == 'super'
+                                                                                   for x in ast.walk(n.value)) for n in m.walk()))
+                                       for r in rets)
+            out.append((m, deleg))
+    return out
+
+
+def check_r10_10(repo: Repo, chk: Check) -> None:
+    # the trusted base of this property is docutils' own escaping (encode: & < > " @ and no-break space; attval; starttag/emptytag quote attribute
+    # values through them).  A translator subclass may extend them (call super() and post-process), it may not replace them: a hand-written table is
+    # a second escaper that has to be complete on its own (a forgotten `"` lets docstring text close an attribute value and open an event handler)
+    import os
+    fx = Repo(os.path.join(os.path.dirname(os.path.dirname(os.path.abspath(__file__))), 'fixtures', 'c10'))
+    got = {(m.cls.name, m.name): d for m, d in _replaced_primitives(fx)}     # type: ignore[union-attr]
+    if got.get(('BadTranslator', 'encode')) is not False or got.get(('GoodTranslator', 'encode')) is not True or got.get(('GoodTranslator', 'starttag')) is not True:
+        chk.error(f'R10.10 self check: the fixture translators were judged {got}')
+    n = 0
+    for m, deleg in _replaced_primitives(repo):
+        n += 1
+        chk.ob('R10.10', f'{m.qn} :: docutils\' {m.name}() is extended, not replaced', deleg,
+               f'every return goes through super().{m.name}(...)' if deleg else
+               f'{m.qn} returns text that did not pass docutils\' own {m.name}(): every piece of docstring text and every attribute value written from it is '
+               'escaped by this table alone - a character it forgets (the double quote) lets docstring text end an attribute and add `onerror=...`', m.loc)
+    chk.stats['translator_primitive_overrides'] = n
+    if n < 1:
+        raise AnalysisError('R10.10: no override of an escaping primitive found (1 confirmed: HTMLTranslator.starttag)')
+    chk.require('R10.10', 1)
